@@ -566,12 +566,13 @@ func (s *socket) Close(discard bool) {
 		return
 	}
 
-	if s.ReadyState() != "open" {
+	// Check and set in one step: a close cause arriving between a separate
+	// check and store would have its "closed" overwritten by "closing".
+	if !s.readyState.CompareAndSwap("open", "closing") {
 		return
 	}
+	socket_log.Debug("readyState updated from %s to %s", "open", "closing")
 	utils.VerifYield("socket.Close.window", s.id)
-
-	s.SetReadyState("closing")
 
 	if length := s.writeBuffer.Len(); length > 0 {
 		socket_log.Debug("there are %d remaining packets in the buffer, waiting for the 'drain' event", length)
